@@ -172,9 +172,41 @@ def chk_after_error(case, acc, seed):
     acc.case(case, outcome='after-error')
 
 
+def chk_big(case, acc, seed):
+    """a full-size aperture (600 x 600 and a 601 x 450 off-centre one, 6 - 8 modes): fit(compose(c)) = c, remove leaves nothing of the
+    removed modes, also for a segment that lives in the last rows of the array"""
+    import lentil
+    shape, modes = tuple(case['shape']), list(case['modes'])
+    rr, cc = np.indices(shape)
+    if case['aperture'] == 'disc':
+        mask = ((rr - shape[0] / 2) ** 2 + (cc - shape[1] / 2) ** 2 < (min(shape) / 2 - 3) ** 2).astype(float)
+    else:                       # a small segment touching the last rows and columns
+        mask = np.zeros(shape); mask[-40:-1, -60:-2] = 1
+    c = np.array([0.3, -0.2, 0.5, 0.1, -0.4, 0.25, 0.15, -0.05][:len(modes)])
+    try:
+        B = np.asarray(lentil.zernike_basis(mask, modes))
+        opd = np.einsum('i,ijk->jk', c, B)
+        got = np.asarray(lentil.zernike_fit(opd, mask, modes), float)
+        res = np.asarray(lentil.zernike_remove(opd, mask, modes), float)
+    except Exception as e:
+        acc.violation(f'big:raises:{type(e).__name__}', case, repr(e))
+        return
+    if got.shape != c.shape or not np.allclose(got, c, rtol=0, atol=1e-8):
+        acc.violation('big:fit-roundtrip', case, f'fit(compose(c)) = {got} != {c} on a {shape} array')
+    if np.max(np.abs(res)) > 1e-8:
+        acc.violation('big:remove', case, f'remove leaves {np.max(np.abs(res)):.3e} of an OPD made of the removed modes')
+    acc.cls('big-apertures')
+    acc.case(case, outcome='big')
+
+
 def t_mask(arg, acc):
     if arg['shard'] == 0 and arg['mask'] == 'disc':
         chk_after_error({'kind': 'aftererr', 'n': arg['n']}, acc, arg['seed'])
+    if arg['shard'] == 1 and arg['mask'] == 'disc' and arg['n'] == 16:
+        for shape in ((600, 600), (601, 450)):
+            for ap in ('disc', 'corner-segment'):
+                for modes in ([1, 2, 3, 4, 5, 6], [2, 3, 4, 5, 6, 7, 8, 11]):
+                    chk_big({'kind': 'big', 'shape': shape, 'aperture': ap, 'modes': modes}, acc, arg['seed'])
     tier, seed = arg['tier'], arg['seed']
     jm = 6 if tier == 'quick' else 8
     for r in range(1, jm + 1):
@@ -207,7 +239,7 @@ def run(tier, seed, acc, procs=None):
                 'bases (cond > 1e8 on the mask) are counted and skipped.',
         'bounds': {'modes': jm, 'array_sizes': [16, 17]},
         'assumptions': ['tolerance 1e-10 + 1e-13*cond (pseudo-inverse rounding)', 'remove compared with numpy.linalg.lstsq projection'],
-        'require': {'non-prefix': 500, 'prefix': 40, 'coords:supplied': 500, 'remove': 1000},
+        'require': {'non-prefix': 500, 'prefix': 40, 'coords:supplied': 500, 'remove': 1000, 'big-apertures': 8},
     }
 
 
@@ -216,4 +248,4 @@ def replay(case, acc):
         import os as _os
         return histories.chk_case(case, acc, int(_os.environ.get('VERIF_SEED', '0') or 0))
     seed = int(os.environ.get('VERIF_SEED', '0') or 0)
-    (chk_after_error if case['kind'] == 'aftererr' else chk)(case, acc, seed)
+    {'aftererr': chk_after_error, 'big': chk_big}.get(case['kind'], chk)(case, acc, seed)
